@@ -8,10 +8,12 @@ CONFIG = {
         "env": {"quick": {"VERIF_C06_L": 5, "VERIF_C06_N": 1500, "VERIF_C06_M": 600},
                 "thorough": {"VERIF_C06_L": 6, "VERIF_C06_N": 12000, "VERIF_C06_M": 4000}},
         "timeout": {"quick": 600, "thorough": 3000},
+        "search_tier": "quick",     # the violation search re-seeds the random streams (VERIF_SEARCH=1 skips the exhaustive part)
     }],
     "rule": "the REAL agreement.voteTracker is driven through handle(voteAcceptedEvent) on (a) EVERY vote sequence of length L "
-            "(quick 5, thorough 6) over 3 senders x 2 values and 2 senders x 3 values for several per-sender weight vectors and "
-            "thresholds 2..3 (thorough also 4 senders x 2 values length 6, 3x3 length 5), rotating over the steps soft/cert/next/late/redo/down, "
+            "(quick 5, thorough 6) over 3 senders x 2 values (4, thorough 6 per-sender weight vectors x thresholds 2,3) and 2 senders x 3 values "
+            "(3 weight vectors x thresholds 2,3); thorough also 4 senders x 2 values length 6 (2 weight/threshold combinations) and 3x3 length 5, "
+            "rotating over the steps soft/cert/next/next+4/late/redo/down, "
             "(b) random sequences of length <= 200 over <= 50 senders x <= 4 values against the current consensus thresholds and small ones "
             "(honest majority / heavy equivocation / split vote / duplicates), (c) a malformed stream outside the property's domain "
             "(zero or inconsistent weights, uint64 wrap, threshold 0, propose step) for model/code correspondence only. Per vote the event "
